@@ -82,6 +82,12 @@ check("C10", "restore-sim", "fault_enumeration",
       "The certificate chain is assumed valid; enumeration is complete for d <= 2 and for the full / inner ranges of d = 3 in the quick tier.",
       "DESIGN.md section 4 C10, sim-restore/REPORT.md")
 
+check("C13", "import-sim", "exploration",
+      "deterministic simulation of chain import histories against a chain-sync server model with forks: seeded sequences of growth, roll-backs (biased to block-range boundaries and to the first stored block), imports with varying targets, restarts, pruning, with crash / transient error at enumerated DB statements and reader errors; oracle = independent model + a fresh node importing the final canonical chain once with the real code",
+      "The real importer, block scanner, streamer and transaction repository on file-backed SQLite are driven through seeded histories; after every successful import the stored blocks, transactions and both kinds of block-range roots are compared with an independent model and with a fresh node; the root offered for signing must depend only on the canonical chain up to the beacon; every 25th run enumerates crash / error points of one import. Four genuine defects that were not repaired are listed in known-findings.json and attributed counterfactually (same trace with the trigger neutralised).",
+      "The Pallas chain-sync client and sockets are replaced by a server model behind ChainBlockReader; an import that returns an error is followed by a process restart (a failed import retried by the same process is outside the statement; observed, not judged); in pruning runs forks are at most keep-14 deep.",
+      "DESIGN.md section 4 C13, sim-import/REPORT.md")
+
 def manifest():
     checks = []
     for pid in sorted(CHECKS):
